@@ -227,8 +227,15 @@ partial def genLooseItems : Nat → Nat → Nat → List Bytes → G → List (L
   | _, _, 0, _, g => ([], g)
   | f + 1, d, m + 1, labels, g =>
     let (b0, g) := genBlk f d true false labels g
-    let (two, g) := g.next 2
-    let isList := match b0 with | .list _ _ _ => true | _ => false
+    -- one time in eight the item BEGINS with an indented code block (often its only block)
+    let (ic0, g) := g.next 8
+    let (b0, g) :=
+      if ic0 == 0 then
+        let (ls, g) := genLines g (codeLinePool.filter (fun l => !l.isEmpty)) true
+        (Blk.indented ls, g)
+      else (b0, g)
+    let (two, g) := if ic0 == 0 then g.next 4 else g.next 2
+    let isList := match b0 with | .list _ _ _ => true | .indented _ => true | _ => false
     let (more, g) := if two == 0 then let (b1, g) := genBlk f d false isList labels g; ([b1], g) else ([], g)
     -- one time in five the item ENDS in an indented code block (whatever came before): the blank line that separates it
     -- from the next item is then what makes the list loose
